@@ -4,7 +4,9 @@ Bounded-exhaustive enumeration: server sets of 1..5 servers (TCP and UNIX mixed)
 subset of an 8-key universe (str, bytes, (server_key, key) pairs) plus larger key sets x key
 prefix x use_pooling; on ONE long-lived HashClient per case: set_many, get_many, gets_many, then
 every single-key operation per key, then the aliasing scenario (the same item key used plain
-and under a server key).  Oracle from the per-server command logs of the reference servers:
+and under a server key), then revival scenarios (a server that was evicted, or failed once,
+comes back: whatever the first operation afterwards is, all operations agree on placement and
+every command is sent exactly once).  Oracle from the per-server command logs of the reference servers:
 each key's command arrives exactly once, at the server the independent rendezvous rule assigns
 to the raw key (or to the server key of a pair).
 """
@@ -223,6 +225,59 @@ def run_alias(servers, prefix, pooling, order):
     return P
 
 
+def run_revival(servers, prefix, pooling, first_op, how):
+    """A server comes back: `how`='dead' - it failed (retry_attempts=0: evicted at once), recovered, and
+    dead_timeout elapsed; `how`='failed' - it failed once (retry_attempts=2), recovered, retry_timeout elapsed.
+    The first operation afterwards is `first_op`; every operation on the same key must then agree."""
+    w = World(servers, prefix, pooling)
+    w.hc.retry_attempts = 0 if how == "dead" else 2
+    w.hc.retry_timeout, w.hc.dead_timeout = 1, 6
+    P = []
+    names = w.names
+    victim = servers[-1]
+    vaddr = addr_of(victim)
+    keys = []
+    i = 0
+    while len(keys) < 3:  # keys owned by the victim in the full rotation
+        k = f"rk{i}"
+        i += 1
+        if rendezvous(names, k) == name_of(victim):
+            keys.append(k)
+    other = next(f"ok{j}" for j in range(99) if rendezvous(names, f"ok{j}") != name_of(victim))
+    w.net.failing[vaddr] = "refused"
+    r = w.call("get", keys[0])  # the failure is noticed
+    w.net.failing.pop(vaddr)
+    w.net.clock.advance(7 if how == "dead" else 2)
+    ks = keys + [other]
+    if first_op == "set_many":
+        w.call("set_many", {k: value_of(k) for k in ks})
+        check_routing(w, f"revival-{how}-set_many", ks, P)
+    elif first_op == "get_many":
+        w.call("get_many", ks)
+        check_routing(w, f"revival-{how}-get_many", ks, P)
+        w.call("set_many", {k: value_of(k) for k in ks})
+        check_routing(w, f"revival-{how}-set_many", ks, P)
+    else:
+        w.call(first_op, keys[0], *([b"v0"] if first_op == "set" else []), **({"noreply": False} if first_op in ("set", "delete") else {}))
+        check_routing(w, f"revival-{how}-{first_op}", [keys[0]], P)
+        w.call("set_many", {k: value_of(k) for k in ks})
+        check_routing(w, f"revival-{how}-set_many", ks, P)
+    for k in ks:
+        r = w.call("get", k)
+        if r != ("ret", value_of(k)):
+            P.append((f"revival-{how}-get-after-set_many", f"after {name_of(victim)} came back ({how}), first operation {first_op}: "
+                      f"get({k!r}) returned {r!r} although set_many just stored it"))
+        check_routing(w, f"revival-{how}-get", [k], P)
+    r = w.call("get_many", ks)
+    if r != ("ret", {k: value_of(k) for k in ks}):
+        P.append((f"revival-{how}-get_many-after-set_many", f"after {name_of(victim)} came back ({how}), first operation {first_op}: "
+                  f"get_many returned {r!r}"))
+    check_routing(w, f"revival-{how}-get_many", ks, P)
+    r = w.call("incr", keys[1], 1, noreply=False)
+    check_routing(w, f"revival-{how}-incr", [keys[1]], P)
+    return P
+
+
 def big_sets():
     out = []
     for n in (10, 25, 50):
@@ -254,6 +309,17 @@ def _worker(job, chk):
             chk.violation(f"{sig}|pooling={pooling}",
                           f"HashClient({[name_of(s) for s in servers]}, key_prefix={prefix!r}, use_pooling={pooling}): {text}",
                           {"servers": si, "prefix": prefix.decode(), "pooling": pooling, "keys": [], "alias": order})
+    if len(servers) >= 2:
+        for how in ("dead", "failed"):
+            for first_op in ("set_many", "get_many", "get", "set", "delete"):
+                P = run_revival(servers, prefix, pooling, first_op, how)
+                chk.add()
+                chk.outcome((si, prefix, pooling, "revival", how, first_op))
+                for sig, text in P:
+                    chk.violation(f"{sig}|pooling={pooling}",
+                                  f"HashClient({[name_of(s) for s in servers]}, key_prefix={prefix!r}, use_pooling={pooling}): {text}",
+                                  {"servers": si, "prefix": prefix.decode(), "pooling": pooling, "keys": [], "alias": None,
+                                   "revival": [first_op, how]})
     if si == 2 and not pooling and prefix:
         chk.sample({"servers": [name_of(s) for s in servers], "prefix": prefix.decode(), "keys": [repr(k) for k in UNIVERSE[:5]],
                     "expected_placement": {repr(k): rendezvous([name_of(s) for s in servers], route_key(k)) for k in UNIVERSE[:5]}})
@@ -270,7 +336,9 @@ def run(chk):
 def replay(detail):
     servers = SERVER_SETS[detail["servers"]]
     prefix = detail["prefix"].encode()
-    if detail["alias"] is not None:
+    if detail.get("revival"):
+        P = run_revival(servers, prefix, detail["pooling"], *detail["revival"])
+    elif detail["alias"] is not None:
         P = run_alias(servers, prefix, detail["pooling"], detail["alias"])
     else:
         keys = [eval(k) for k in detail["keys"]]
